@@ -74,7 +74,7 @@ def run(cx):
         for c in cases[:2]:
             cx.sample({"src": c["src"], "observed": {k: v for k, v in c["obs"].items() if k in ("k", "v")}})
     # ---- G leg: operator pairs (minimal parentheses; tree must equal the fully parenthesised one)
-    fams = [("pairs", 0, True), ("skeletons", 3 if cx.quick() else 4, False)]
+    fams = [("pairs", 0, True), ("skeletons", 3 if cx.quick() else 4, False), ("updates", 0, False)]
     if not cx.quick():
         fams.append(("triples", 0, True))
     gstats = {}
